@@ -69,6 +69,8 @@ pub fn walpha(name: &str) -> Vec<f64> {
         "w012" => vec![0.0, 1.0, 2.0],
         "wf" => vec![0.1, 0.2, 0.3],
         "wf2" => vec![0.1, 0.2],
+        // exact in f64, equal after narrowing to f32 (2^24 and 2^24+1), plus a light edge
+        "wf32" => vec![16777216.0, 16777217.0, 0.5],
         // node-keyed schemes: an edge is present or absent, its weight is a function of its ends (see `scheme_weight`)
         "ksrc" | "ksrc2" | "kdst" | "ksum" => vec![1.0],
         "w12inf" => vec![1.0, 2.0, f64::INFINITY],
@@ -374,7 +376,7 @@ pub fn parse_case(case: &str) -> Option<(Family, u64, u8, u8, String)> {
     if !(p.len() == 7 || (p.len() == 8 && (p[7].starts_with('P') || p[7].starts_with('H')))) || p[0] != "g" {
         return None;
     }
-    let wa: &'static str = ["u", "w1", "w12", "w123", "w01", "w012", "wf", "wneg", "wtiny", "whuge", "winf", "wmax", "wf2", "w12inf", "ksrc", "ksrc2", "kdst", "ksum"].iter().find(|x| **x == p[3]).copied()?;
+    let wa: &'static str = ["u", "w1", "w12", "w123", "w01", "w012", "wf", "wneg", "wtiny", "whuge", "winf", "wmax", "wf2", "w12inf", "ksrc", "ksrc2", "kdst", "ksum", "wf32"].iter().find(|x| **x == p[3]).copied()?;
     let f = Family { kind: Kind::from_idx(p[1].parse().ok()?), n: p[2].parse().ok()?, walpha: wa, orders: vec![], min_edges: 0, max_edges: usize::MAX, primed: p.len() == 8 && p[7].starts_with('P'), histories: p.len() == 8 && p[7].starts_with('H') };
     Some((f, p[4].parse().ok()?, p[5].parse().ok()?, p[6].parse().ok()?, extra))
 }
@@ -691,6 +693,19 @@ pub struct E2Stats {
 impl E2Stats {
     pub fn new() -> E2Stats {
         E2Stats { graphs: AtomicU64::new(0), calls: AtomicU64::new(0), capped: AtomicBool::new(false), counters: Mutex::new(Counters::default()), samples: Mutex::new(vec![]), families: Mutex::new(vec![]) }
+    }
+}
+
+/// Runs `body` once per family. Small families (a few thousand graph checks at most) cannot keep all cores busy on
+/// their own, so they run four at a time; the large ones follow one by one. Order of the evidence's family list
+/// follows completion.
+pub fn for_each_family<F: Fn(&Family) + Sync>(fams: &[Family], body: F) {
+    let weight = |f: &Family| f.count() as u128 * f.orders.len().max(1) as u128 * if f.primed || f.histories { 12 } else { 1 };
+    let small: Vec<&Family> = fams.iter().filter(|f| weight(f) < 6000).collect();
+    let large: Vec<&Family> = fams.iter().filter(|f| weight(f) >= 6000).collect();
+    par_for_w(small.len(), 4, |i| body(small[i]));
+    for f in large {
+        body(f);
     }
 }
 
